@@ -174,6 +174,38 @@ class Explorer:
                 return None
         return c
 
+    def args_fit(self, c: Contract, info: FunctionInfo, args, kwargs) -> bool:
+        """do the actual arguments have the kinds the contract declares (object vs scalar)?  A contract
+        written for `other: RealFloat` says nothing about a call with a float operand: such calls are inlined."""
+        names = [a.arg for a in info.node.args.posonlyargs + info.node.args.args]
+        vals = dict(zip(names, args))
+        vals.update(kwargs)
+        for p, tstr in c.params.items():
+            if p not in vals:
+                continue
+            try:
+                t = self.types.parse_str(tstr, info.module.name, info.cls)
+            except Exception:
+                continue
+            if not self._fits(vals[p], t):
+                return False
+        return True
+
+    def _fits(self, v, t) -> bool:
+        k = t[0]
+        if k == 'union':
+            return any(self._fits(v, a) for a in t[1])
+        if k == 'obj':
+            return isinstance(v, SObj) and v.cls is not None and self.index.is_subclass(v.cls, t[1])
+        if k in ('int', 'bool', 'float', 'frac', 'fconst', 'enum', 'none'):
+            if isinstance(v, SObj):
+                return False
+            if k != 'none' and v is None:
+                return False
+            if k in ('int', 'bool', 'frac', 'enum') and isinstance(v, (float, SymFloat)):
+                return False
+        return True
+
     # --------------------------------------------------------- contract call
     def _call_spec(self, P: Path, fn: FunctionInfo, bound: dict, extra: dict | None = None):
         names = [a.arg for a in fn.node.args.args]
